@@ -455,3 +455,14 @@ Proof.
   intros H. split; [exact (stored_spelling _ _ _ _ H)|].
   intros Hc c. exact (stored_spelling_consistent _ _ _ _ c Hc H).
 Qed.
+
+(* ------------------------------------------------------------------ F13: parent before its only cited child *)
+Definition f13_db : list entry := [(s2l "P", None); (s2l "C", Some (s2l "P"))].
+Lemma f13_witness :
+  map lower (fst (command_read_raw f13_db [s2l "C"] 1)) <> map lower (fst (select_unfiltered f13_db [s2l "C"] 1)) /\
+  snd (command_read_raw f13_db [s2l "C"] 1) = [RBadXref (s2l "C") (s2l "P")] /\
+  snd (select_unfiltered f13_db [s2l "C"] 1) = [].
+Proof. vm_compute. split; [discriminate|auto]. Qed.
+Lemma filtered_refuted : exists db cites m,
+  map lower (fst (command_read_raw db cites m)) <> map lower (fst (select_unfiltered db cites m)).
+Proof. exists f13_db, [s2l "C"], 1%Z. exact (proj1 f13_witness). Qed.
